@@ -1,7 +1,7 @@
 from common import ENUMX_ASSUME
 
 CHECK = {'pkgs': ['core/consensus/qbft'],
- 'files': {'core/consensus/qbft': ['zz_verif_c05_test.go']},
+ 'files': {'core/consensus/qbft': ['zz_verif_c05_test.go', 'zz_verif_c05x_test.go']},
  'libs': ['enumx'],
  'run': 'TestVerifC05',
  'level': 'exploration',
@@ -27,7 +27,22 @@ CHECK = {'pkgs': ['core/consensus/qbft'],
               'then the message itself), then every altered copy, then the genuine messages again; B = after each altered copy the genuine '
               'messages whose signatures it carries and the base message; F = like B on a fresh component per altered copy; C = after all '
               'genuine messages of the other duty\'s instance as well. Differential oracle: every delivery (altered or genuine) must get the '
-              'verdict that a component without any history gives the same bytes',
+              'verdict that a component without any history gives the same bytes. Context dimension (the handler\'s context ends while a message is '
+              'being processed): handle is called with a context.Context of the harness that reports done from its k-th observation on (calls '
+              'of Err and Done are counted - the value contexts that handle derives delegate both to it; from the k-th observation on Err '
+              'returns the cause and Done hands out a channel that is already closed, a channel handed out earlier is closed at that moment), '
+              'with the runtime\'s choice among ready select cases pinned (runtime.VerifSetSelMode 1 and 2: when "enqueue" and "ctx.Done()" are '
+              'both ready the two modes take different branches, counted per mode); subjects are the altered messages of the generators fields / '
+              'subst / cross / extra that must be rejected because of a justification, and the messages an undisturbed run accepts; every run '
+              'starts with an empty instance map. Sequence dimension (local life-cycle calls and the expiry window): one new component per '
+              'sequence with the deadliner of core.NewDeadliner on a clockwork fake clock (core.NewDeadlinerForT), the real '
+              'core.NewDutyDeadlineFunc, core.NewDutyGater on the same clock, Start called as in production; the deadliner\'s output is '
+              'handed to the component\'s reader goroutine only when the sequence says so (a wrapper whose C() is fed from the real C() by '
+              'operation C); all sequences over {valid peer message of each kind through handle, local Propose, local Participate (each in a '
+              'goroutine of its own, real qbft.Run), clock to the duty\'s deadline, clock 1 ns past it, C} that end in a peer message run inside a '
+              'testing/synctest bubble (synctest.Wait after every operation = deadliner, reader and instance goroutines have settled; the '
+              'bubble\'s own clock never moves, so no round timer fires), also with the deadliner\'s 10-slot output channel already full (its '
+              'notification for the duty under test is dropped); the expectation of every delivery is recomputed from the fake clock',
  'claim': 'Corpus (duty attester/slot 1001, leaders member 0/1/2 in rounds 1/2/3): 26 messages = PRE-PREPARE r1 (no justification), PRE-PREPARE r3 '
           'justified by 3 ROUND-CHANGE + 4 PREPARE, 8 PREPARE (r1,r3), 7 COMMIT (r1,r3), 2 ROUND-CHANGE without and 6 with prepared certificate '
           '(3 PREPARE each), DECIDED r3 with 3 COMMIT; every one is first accepted unaltered by the fresh receiver. The real eager timer ends '
@@ -75,7 +90,30 @@ CHECK = {'pkgs': ['core/consensus/qbft'],
           'place with its value, every message of the other duty relabelled as this duty, this message relabelled as the other duty, the '
           'other duty\'s PREPARE carrying these justifications relabelled. Must-reject oracle as above, rejected = instance map, flags and '
           'buffer lengths unchanged, accepted = exactly one more entry in the buffer of its duty equal to what was sent; genuine messages '
-          'must be accepted before, between and after; verdict with history == verdict without',
+          'must be accepted before, between and after; verdict with history == verdict without. '
+          'Context: per corpus message of the tier the units ctx/fields (every 4th - thorough 8th - eligible message per unit), ctx/subst, ctx/cross '
+          '(generators as above) and ctx/extra = the unaltered message, and a round-1 PREPARE of the same instance appended / prepended as a '
+          'justification {as it is, one signature bit flipped, signed by the next member\'s key without naming it, the PREPARE of the other '
+          'duty\'s instance instead, round+1 under the old signature}. Eligible = (a) the oracle says must-reject and the first broken rule is at a '
+          'justification (unknown-peer, unsigned-content, bad-signature, wrong-signer, bad-field, just-duty-mismatch, malformed: i.e. every signed '
+          'field of every justification altered under the reused signature, signature bytes altered, another member\'s key, justifications '
+          'of the other duty) or (b) not must-reject and accepted by the undisturbed run. Each x k in {never, 0..K}, K = 1 + max(observations of '
+          'the undisturbed run, justifications + 2) (a message with j justifications is observed j + 2 times: j in the loop, after the '
+          'verification, in the final select) x select mode {1, 2} x cause {DeadlineExceeded; thorough also Canceled}. Oracle (a): handle returns '
+          'an error (the context\'s or the verification\'s), no entry in any receive buffer, instance map unchanged (still empty); (b): nil and '
+          'exactly this message once in the buffer of its duty, or an error e with errors.Is(e, cause) and no buffer entry (an empty instance IO of '
+          'its duty may exist) - nothing else. Sequences: duty {attester slot 1001 = the corpus messages; proposer slot 1001 = the same 7 messages, '
+          'first of each kind, and their justifications signed again for it} x deadliner output {empty; full} x all sequences of length 1..3 '
+          '(thorough 1..4) over the 12 operations {m:K for the 7 kinds, P = Propose, Q = Participate, T0 = clock to the deadline, T = clock to '
+          'deadline + 1 ns (again: + 1 slot), C = pending expiry notifications reach the component} ending in m: 1099 (thorough 13195) sequences '
+          'per (duty, output), 4396 (52780) in total; the clock starts 4.5 s into slot 1001 (attester deadline 385 s - 4.5 s ahead, proposer '
+          'deadline 0.5 s ahead). Every peer message of a sequence is judged: expired (now - genesis > slot*12 s + duration(type) + 1 s, math/big) '
+          '=> handle returns an error, instance map / flags / buffer lengths unchanged, and no instance that is running receives it (checked on '
+          'what the instances sniffed, after the sequence); not expired (including now == deadline) => handle returns nil and, while no local '
+          'call has started an instance, exactly one more entry, equal to the message, in the buffer of its duty. States reached at an expired '
+          'delivery (counted): no IO (notification consumed, or nothing created), IO with buffered messages while the notification is pending or '
+          'dropped, IO created by Propose / Participate after the deadline (running flag set, never deleted), IO of an instance that was '
+          'started before the deadline and still runs',
  'trusted': 'decred secp256k1 (unforgeability: only what was signed here can verify), protobuf-go (deterministic marshal, Any), fastssz via '
             'hashProto for building the table of known values (cross-checked against the captured messages), testutil Random*Seed generators as '
             'value alphabet. The oracle does not call verifyMsg, verifyMsgLimits, valuesByHash, newMsg, the gater or the deadliner; the duty '
@@ -83,10 +121,17 @@ CHECK = {'pkgs': ['core/consensus/qbft'],
             'future epochs is a constant of the harness. testing/synctest: inside a bubble time.Now is a fake clock that does not move while a '
             'goroutine is runnable. The differential oracle trusts that a newly built component has no history (no package-level state). verifyMsgSig is consulted only to excuse the acceptance of an equivalent encoding of '
             'an unchanged message\'s signature (recovery id 27/28). A correctly signed message with prepared round >= round, or for an exempt '
-            'duty type, is outside the statement: whatever handle does with it is not judged',
+            'duty type, is outside the statement: whatever handle does with it is not judged. Context dimension: the go1.26.8 runtime overlay '
+            '(VerifSetSelMode) decides which ready select case runs; the compiler lays the send case of handle\'s final select before its receive '
+            'case (mode 1 = enqueue, mode 2 = ctx.Done(); the harness counts both outcomes instead of relying on it). Sequence dimension: '
+            'clockwork.FakeClock (Advance fires the deadliner\'s timers; a timer set with a non-positive duration fires at once), '
+            'testing/synctest.Wait as the quiescence point; the deadline table of core/deadline.go is re-implemented in the harness',
  'rule': 'one evaluation = one altered frame handed to a real receiver (fresh per unit; history families: the long-lived receiver of the unit, '
-         'plus one evaluation per genuine message delivered before/after), or one call of the gater function; distinct = (message kind, '
-         'family or history mode, field path or region, alteration kind) resp. (gater kind, slot class, duty type)',
+         'plus one evaluation per genuine message delivered before/after), or one call of the gater function, or one call of handle under one '
+         '(k, select mode, cause), or one operation sequence on a new component; distinct = (message kind, '
+         'family or history mode, field path or region, alteration kind) resp. (gater kind, slot class, duty type) resp. (message kind, '
+         'alteration class, phase of k: in the loop / post-verification check / enqueue select / beyond, select mode) resp. (duty, output '
+         'full?, sequence with message kinds collapsed, kind of the last message)',
  'budget_s': {'quick': 100, 'thorough': 1500}}
 CHECK["assumptions"] = ENUMX_ASSUME + [
     "one cluster size (n=4, f=1), one duty type (attester) for the corpus; values are single-entry attestation data sets",
@@ -97,6 +142,15 @@ CHECK["assumptions"] = ENUMX_ASSUME + [
     "history violation reproduces the genuine prefix and the one altered copy, not the altered copies delivered before it",
     "boundary slots: slot durations 12 s, 5 s, 1 s with 32, 16, 8 slots per epoch for the direct calls, 12 s/32 through handle; clocks "
     "at most 3.8 years after genesis (time.Time.Sub saturates at 292 years; not explored)",
+    "context dimension: the context is seen only through Err and Done (it has no deadline and no values), it never goes back from done to "
+    "not done, the receive buffer always has room (the enqueue case of the final select is always ready), one message per component state "
+    "(instance map emptied before every call)",
+    "sequence dimension: n=4, the receiver is member 3, messages come from the peer with index 0; two duties (attester and proposer of slot "
+    "1001), one duty per sequence; peer messages are the first corpus message of each kind (valid, also in combination: the instance that a local "
+    "call started may act on them, e.g. decide on the DECIDED message); local calls are not made concurrently with a delivery (every operation "
+    "runs to quiescence first); round timers never fire; the expiry notification is released or withheld as a whole (operation C), lost only "
+    "through the full output channel; sequence length <= 3 (thorough 4); whether a rejected message reached a running instance is judged on the "
+    "sniffed messages, which assumes the instance itself never sends a message equal to one of the 7 peer messages (true without timeouts)",
     "goroutine preemption inside the virtual-time run is not controlled: the run is repeated until it yields the expected 26 message keys; "
     "which three members form a quorum inside a justification may differ between shards",
 ]
